@@ -203,6 +203,12 @@ func analyseResolver(c *core.Ctx, fn *ssa.Function, rules map[string]bool) {
 	}
 	x.Hooks.Store = func(x *absint.Exec, s *absint.State, in *ssa.Store, addr, val absint.Value) {
 		p, ok := addr.(absint.Ptr)
+		if ok && strings.HasPrefix(p.Loc, "A:r/") && len(s.Frames) == 1 {
+			// the list under construction must not become an alias of a recipe's own list
+			if loc := locOf(x, val); strings.HasSuffix(loc, "·Elements") && strings.Contains(loc, "lookup(") {
+				report("C01-R5", "alias", in.Pos(), "the list under construction is assigned another recipe's element list itself (%s), not a copy: later merges and the sort then write into that recipe", loc)
+			}
+		}
 		if !ok || !strings.HasSuffix(p.Loc, "·Elements") || !strings.HasPrefix(p.Loc, "L:") {
 			return
 		}
@@ -301,6 +307,8 @@ func analyseResolver(c *core.Ctx, fn *ssa.Function, rules map[string]bool) {
 				if has == "T" && retNil && !wrote {
 					report("C11-R2", "guard", tm.Pos, "a defined recipe below the limit is reported resolved (nil) without its flattened list having been stored: %s", x.Valuation(tm.State))
 					guardBad++
+					report("C01-R1", "stored", tm.Pos, "a defined recipe is reported resolved although no merged and sorted list was stored for it (%s): its elements stay as written in the book — duplicates not merged, recipes among them not expanded, order not by name", x.Valuation(tm.State))
+					report("C01-R5", "stored", tm.Pos, "a defined recipe is reported resolved without its list having gone through merge-by-name (%s): duplicate names written in the book survive", x.Valuation(tm.State))
 				}
 				if has == "" && retNil && !wrote {
 					report("C11-R2", "guard", tm.Pos, "a path below the limit returns nil without consulting the book")
@@ -361,7 +369,7 @@ func splitTop(s string) []string {
 
 // ruleResolverEntries: public entry points start every walk at level 0 and, for
 // C01, every stored list is reachable from them.
-func ruleResolverEntries(c *core.Ctx, rule string) {
+func ruleResolverEntries(c *core.Ctx, rule string, wantLevel, wantBound bool) {
 	for _, r := range recursiveResolvers(c.P) {
 		li, _, ok := levelParam(r)
 		if !ok {
@@ -380,6 +388,17 @@ func ruleResolverEntries(c *core.Ctx, rule string) {
 					}
 					n++
 					a := ci.Common().Args[li]
+					if bi := boundParam(r, li); wantBound && bi >= 0 && bi < len(ci.Common().Args) {
+						how, ok := directSetting(ci.Common().Args[bi])
+						if ok {
+							c.Discharge(rule, core.FuncName(fn), "bound→"+r.Name(), c.P.Pos(in.Pos()), "the depth limit handed to the walk is "+how+", untransformed")
+						} else {
+							c.Violate(rule, core.FuncName(fn), "bound→"+r.Name(), c.P.Pos(in.Pos()), "the depth limit handed to the walk is "+how+": the configured limit N is clamped, shifted or replaced before use, so the walk fails (or succeeds) at a different chain length than the N the caller asked for", nil)
+						}
+					}
+					if !wantLevel {
+						continue
+					}
 					if cst, isC := a.(*ssa.Const); isC && cst.Int64() == 0 {
 						c.Discharge(rule, core.FuncName(fn), "level0→"+r.Name(), c.P.Pos(in.Pos()), "walk starts at depth 0")
 					} else {
@@ -392,4 +411,70 @@ func ruleResolverEntries(c *core.Ctx, rule string) {
 			c.Undecide(rule, core.FuncName(r), "entry", c.P.Pos(r.Pos()), "the recursive resolver has no caller: no entry point found", nil)
 		}
 	}
+}
+
+// boundParam: the integer parameter of a recursive resolver that every
+// recursive call passes on unchanged (the depth limit), or -1.
+func boundParam(fn *ssa.Function, level int) int {
+	cand := -1
+	for i, p := range fn.Params {
+		if i == level {
+			continue
+		}
+		if b, ok := p.Type().Underlying().(*types.Basic); !ok || b.Info()&types.IsInteger == 0 {
+			continue
+		}
+		same := true
+		for _, b := range fn.Blocks {
+			for _, in := range b.Instrs {
+				if ci, ok := in.(ssa.CallInstruction); ok && ci.Common().StaticCallee() == fn {
+					if i >= len(ci.Common().Args) || ci.Common().Args[i] != ssa.Value(p) {
+						same = false
+					}
+				}
+			}
+		}
+		if same {
+			if cand >= 0 {
+				return -1
+			}
+			cand = i
+		}
+	}
+	return cand
+}
+
+// directSetting: v is a parameter or a field read, possibly converted — not the result of arithmetic, a φ or a call.
+func directSetting(v ssa.Value) (string, bool) {
+	for depth := 0; depth < 6; depth++ {
+		switch x := v.(type) {
+		case *ssa.Convert:
+			v = x.X
+		case *ssa.ChangeType:
+			v = x.X
+		case *ssa.Parameter:
+			return "the caller's parameter " + x.Name(), true
+		case *ssa.Field:
+			return "the field " + fieldNameV(x.X.Type(), x.Field), true
+		case *ssa.UnOp:
+			if x.Op == token.MUL {
+				if fa, ok := x.X.(*ssa.FieldAddr); ok {
+					return "the field " + fieldName(fa.X.Type(), fa.Field), true
+				}
+				if _, ok := x.X.(*ssa.Alloc); ok {
+					return "a local variable assigned on several paths (" + x.Name() + ")", false
+				}
+			}
+			return "computed by " + x.String(), false
+		case *ssa.Phi:
+			return "chosen among several values (" + x.Comment + ")", false
+		case *ssa.BinOp:
+			return "computed by " + x.String(), false
+		case *ssa.Const:
+			return "the constant " + x.String(), false
+		default:
+			return "computed by " + v.String(), false
+		}
+	}
+	return "too deeply nested", false
 }
